@@ -64,8 +64,8 @@ def exports_agree(c, expected_cells=None, clear_with=0) -> bool:
     return c.export_text() == "" and _TAG.sub("", c.export_html(code_format="{code}")) == ""
 
 
-def _mk_unit(nseg, tiers, timeout):
-    @symx("C15-record-buffer-%dseg" % nseg, tiers=tiers, timeout=timeout, kind="P", functions=F_X,
+def _mk_unit(nseg, tiers, timeout, first=None):
+    @symx("C15-record-buffer-%dseg%s" % (nseg, "" if first is None else "-first%d" % first), tiers=tiers, timeout=timeout, kind="P", functions=F_X,
           bounds="recording console (colour system from %r, terminal or not, NO_COLOR on/off) whose buffer receives every list of %d segments, each a "
                  "text from %r with a style from {none, bold, red+link, bold again} or an unstyled control segment from %r "
                  "(solver-enumerated, native): export_text == visible text of the file; export_html (both modes) with tags removed "
@@ -78,7 +78,7 @@ def _mk_unit(nseg, tiers, timeout):
         no_color = bool(e.mkbool("no_color"))
         segs = []
         for i in range(nseg):
-            k = int(e.mk("seg%d" % i, 0, len(TEXTS) + len(CTRL) - 1))
+            k = first if (first is not None and i == 0) else int(e.mk("seg%d" % i, 0, len(TEXTS) + len(CTRL) - 1))
             if k < len(TEXTS):
                 st = STYLES[int(e.mk("style%d" % i, 0, len(STYLES) - 1))]
                 segs.append(Segment(TEXTS[k], st))
@@ -102,7 +102,8 @@ def _mk_unit(nseg, tiers, timeout):
 
 
 _mk_unit(2, ("quick", "thorough"), 900)
-_mk_unit(3, ("thorough",), 3400)
+for _f in range(len(TEXTS) + len(CTRL)):      # one obligation per first segment (text or control code)
+    _mk_unit(3, ("thorough",), 3400, first=_f)
 
 
 # --- API level: histories of print / log / rule / line / control, with and without capture ---------------------------
